@@ -29,6 +29,7 @@ func TestProp(t *testing.T) {
 	runtime.GOMAXPROCS(2)
 	kit.Run(t, "C08", rule,
 		kit.Clause[coll3Case]{Name: "C08/collider3d/queries-vs-scan", Quick: 40000, Thorough: 400000, Fresh: true, Gen: genColl3, Check: checkColl3},
+		kit.Clause[degenCase]{Name: "C08/collider3d/segment-triangles", Quick: 8000, Thorough: 100000, Fresh: true, Gen: genDegen, Check: checkDegen},
 		kit.Clause[coll2Case]{Name: "C08/collider2d/queries-vs-scan", Quick: 40000, Thorough: 400000, Fresh: true, Gen: genColl2, Check: checkColl2},
 		kit.Clause[sdf3Case]{Name: "C08/sdf3d/distance-vs-scan", Quick: 20000, Thorough: 200000, Fresh: true, Gen: genSDF3, Check: checkSDF3},
 		kit.Clause[sdf2Case]{Name: "C08/sdf2d/distance-vs-scan", Quick: 20000, Thorough: 200000, Fresh: true, Gen: genSDF2, Check: checkSDF2},
